@@ -189,7 +189,7 @@ Proof. intros H. apply p2_mklist_good. cbn [forallb]. rewrite H. reflexivity. Qe
 
 Lemma audiences_of_create x r : create x = Issued r -> i_audiences r = [[a_sp (arg x)]].
 Proof.
-  unfold create, create_with. destruct (choose_name_id_with _ _ x) as [[n s]|]; [|discriminate].
+  unfold create, create_with, create_clocked; cbn [read]. destruct (choose_name_id_with _ _ x) as [[n s]|]; [|discriminate].
   destruct (signatures x) as [[sr sa]|]; [|discriminate]. intros H. injection H as <-. reflexivity.
 Qed.
 
